@@ -74,10 +74,10 @@ def run(ctx, eng):
         conn = [e for e in decs if e.base == ('p', 'self')]
         strm = [e for e in decs if e.base != ('p', 'self')]
         for what, lst in (('connection', conn), ('stream', strm)):
-            if len(lst) != 1 or lst[0].aug != '-':
+            op = cm.decrement_operand(lst[0]) if len(lst) == 1 else None
+            if op is None:
                 bad.append('%s window not decremented exactly once' % what)
                 continue
-            op = lst[0].operand
             f = T.to_aff(op) if op is not None else None
             got = (frozenset((cm.show0(a), c) for a, c in f[0].items()),
                    f[1]) if f else None
@@ -352,10 +352,8 @@ def check_settings_delta(ctx, eng):
             ok = a == ['MutableMapping... '] or (
                 len(a) == 2 and a[0].endswith('.original_value') and
                 a[1].endswith('.new_value'))
-            iws = any(e.kind == 'assume' and e.cond[0] == 'in' and
-                      cm.enum_name(e.cond[1]) == 'INITIAL_WINDOW_SIZE'
-                      for e in p.events)
-            ok = ok and iws
+            from .c11 import code_facts
+            ok = ok and code_facts(p).get('INITIAL_WINDOW_SIZE') is True
     ctx.ob('FLOW.delta', f9.qual, 'delta from the acknowledged change', ok,
            '_flow_control_change_from_settings(original_value, new_value) of '
            'the INITIAL_WINDOW_SIZE change', node=f9.node)
